@@ -86,6 +86,10 @@ def _c06_reset(h, obs, info, rep):
         raise Failure("C06:reset-counter", f"steps={h.env.steps} after reset")
 
 
+def _c13_start(h, rep):
+    h.probe_saved = True
+
+
 def _c08_start(h, rep):
     O.c08_initial(h, h.initial_obs, h.initial_tensor, rep, "construction")
 
@@ -127,9 +131,10 @@ CHECKS = {
                "execution in partially observable mode; distinct by (scenario, state, action, draw side).",
                O.c08, on_start=_c08_start, on_reset=_c08_reset, modes=OBS_MODES, assumptions=ASSUME_COMMON + [
                    "the per-action entitlement table is the one documented in State.get_observation (discovery value only for newly discovered hosts)"]),
-    "C13": Chk("C13", GEN_RULE + "Non-trivial = state-changing generative step, or a generative step on a saved (non-current) "
-               "state; distinct by (scenario, state, action, draw side).",
-               O.c13, assumptions=ASSUME_COMMON),
+    "C13": Chk("C13", GEN_RULE + "Generative ops on earlier state objects are bracketed by probe actions (remote actions on non-public "
+               "hosts, single-gate near-misses) whose results on that same object must not change. Non-trivial = state-changing "
+               "generative step, or a generative step on a saved (non-current) state; distinct by (scenario, state, action, draw side).",
+               O.c13, on_start=_c13_start, assumptions=ASSUME_COMMON),
 }
 
 EXH_QUICK = ["tiny", "tiny-hard", "tiny-small"]
